@@ -76,6 +76,11 @@ def sortBy (le : String → String → Bool) : List String → List String
   | [] => []
   | a :: l => insertSorted le a (sortBy le l)
 
+/-- A list as a set: duplicates removed (the last occurrence is kept). -/
+def dedup : List String → List String
+  | [] => []
+  | a :: l => if l.contains a then dedup l else a :: dedup l
+
 structure Result where
   scopeVars : List String
   undefined : List String
@@ -85,7 +90,7 @@ structure Result where
 
 /-- `_get_block_vars(node, modified)` with the annotations of `node` and the function scope passed in. -/
 def blockVars (modified liveIn liveOut definedIn globals nonlocals : List String) : Result :=
-  let modified := modified.eraseDups
+  let modified := dedup modified
   let basic := basicVars modified liveIn liveOut nonlocals
   let comp := compositeVars modified liveIn
   let undefined := modified.filter fun v =>
